@@ -363,7 +363,13 @@ fn main() {
                     drive::drive::<eng_list::ListEng>(out, &o)
                 }
                 "glist" => drive::drive::<eng_list::GListEng>(out, &o),
-                "merkle" => drive::drive::<eng_merkle::MerkleEng>(out, &o),
+                "merkle" => {
+                    let n = fv("--wide", 0);
+                    if n > 0 {
+                        println!("{}", json!({"probe": "wide_node", "n": n, "result": eng_merkle::wide_node_probe(n)}));
+                    }
+                    drive::drive::<eng_merkle::MerkleEng>(out, &o)
+                }
                 "map_mv" => drive::drive::<eng_map::MapEng<crdts::MVReg<u8, u8>>>(out, &o),
                 "map_or" => drive::drive::<eng_map::MapEng<crdts::Orswot<u8, u8>>>(out, &o),
                 "map_map_mv" => drive::drive::<eng_map::MapEng<crdts::Map<u8, crdts::MVReg<u8, u8>, u8>>>(out, &o),
